@@ -180,6 +180,27 @@ def run_case(ctx, case):
                 ctx.violation("c19_multi_machine_choice_not_from_all_machines",
                               {"params": p, "operations_drawn": n_multi,
                                "machine_ids_seen": sorted(used), "M_at_least": min_M})
+    # generators that mix single- and multi-machine operations: the single machine of an
+    # operation is drawn from all M machines too, so within a job two such operations coincide
+    # now and then (judged once "never" has probability < 1e-9 under uniform draws)
+    if kr[0] == 1 and kr[1] > 1 and seq1:
+        g7 = make(p)
+        logp, coincidences, n7 = 0.0, 0, 0
+        while logp > -21.0 and n7 < 800 and not coincidences:
+            jobs7 = dump(g7.generate()); n7 += 1
+            M7 = len(jobs7[0])
+            for job in jobs7:
+                singles = [ms[0] for ms, _ in job if len(ms) == 1]
+                if len(set(singles)) < len(singles):
+                    coincidences += 1
+                for i in range(1, len(singles)):
+                    logp += math.log(1 - i / M7) if i < M7 else -50.0
+        if coincidences or logp <= -21.0:
+            ctx.count("single_machine_coincidence_checks")
+        if not coincidences and logp <= -21.0:
+            ctx.violation("c19_single_machine_operations_not_drawn_from_all_machines",
+                          {"params": p, "instances_drawn": n7,
+                           "log_probability_of_no_coincidence_under_uniform_draws": logp})
     # same seed, same parameters, built and then consumed -> identical sequence
     g2 = make(p)
     seq2 = [dump(g2.generate()) for _ in range(len(seq1))]
@@ -255,6 +276,13 @@ def run_case(ctx, case):
             ctx.violation("c19_iteration_count", {"params": p, "first": n_a, "second": n_b})
         if len(set(got_names)) != len(got_names):
             ctx.violation("c19_name_reused", {"params": p, "names": got_names})
+        # two passes over one generator with direct generate() calls in between: no name twice
+        g6 = make(p)
+        nm6 = [i.name for i in g6] + [g6.generate().name] + [i.name for i in g6] + [g6.generate().name]
+        ctx.count("two_pass_name_checks")
+        if len(set(nm6)) != len(nm6):
+            ctx.violation("c19_name_reused", {"params": p, "names": nm6,
+                                              "where": "second pass over the same generator"})
         # an iteration abandoned half-way (break / next(iter(...))) followed by a new one
         g4 = make(p)
         taken = 0
